@@ -13,6 +13,7 @@
 #include <memory>
 #include <set>
 #include <unordered_map>
+#include <unordered_set>
 #include <vector>
 
 namespace crab {
@@ -54,12 +55,76 @@ class necessary_preconditions_fixpoint_iterator
   bb_abstract_map_t m_invariants;
   // preconditions from good states, otherwise from bad states
   bool m_good_states;
+  // Blocks that cannot reach the exit block but from which an
+  // assertion is reachable. The backward fixpoint (reversed CFG
+  // from the exit block) never visits them.
+  std::unordered_set<bb_label_t> m_fail_without_exit;
+
+  /**
+   * When preconditions are computed from error states, an assertion
+   * located in a block that cannot reach the exit block can still
+   * be violated. Collect the blocks that cannot reach the exit but
+   * can reach such an assertion: a state leaving a predecessor of
+   * one of them may lead to an error (see analyze).
+   **/
+  void compute_fail_without_exit() {
+    if (m_good_states || !m_cfg.has_exit()) {
+      return;
+    }
+    std::unordered_set<bb_label_t> reach_exit;
+    std::vector<bb_label_t> worklist;
+    reach_exit.insert(m_cfg.exit());
+    worklist.push_back(m_cfg.exit());
+    while (!worklist.empty()) {
+      bb_label_t n = worklist.back();
+      worklist.pop_back();
+      for (auto const &p : boost::make_iterator_range(m_cfg.prev_nodes(n))) {
+        if (reach_exit.insert(p).second) {
+          worklist.push_back(p);
+        }
+      }
+    }
+    for (auto it = m_cfg.begin(), et = m_cfg.end(); it != et; ++it) {
+      if (reach_exit.count(it->label()) > 0) {
+        continue;
+      }
+      for (auto &s : *it) {
+        if (s.is_assert() || s.is_bool_assert() || s.is_ref_assert()) {
+          if (m_fail_without_exit.insert(it->label()).second) {
+            worklist.push_back(it->label());
+          }
+          break;
+        }
+      }
+    }
+    while (!worklist.empty()) {
+      bb_label_t n = worklist.back();
+      worklist.pop_back();
+      for (auto const &p : boost::make_iterator_range(m_cfg.prev_nodes(n))) {
+        if (reach_exit.count(p) == 0 && m_fail_without_exit.insert(p).second) {
+          worklist.push_back(p);
+        }
+      }
+    }
+  }
 
   /**
    * Compute necessary preconditions for a basic block
    **/
   virtual AbsDom analyze(const bb_label_t &node, AbsDom &&precond) override {
     auto &bb = m_cfg.get_node(node);
+
+    if (!m_fail_without_exit.empty()) {
+      // A successor that cannot reach the exit block is never
+      // visited, but an assertion can be violated from it: every
+      // state leaving this block may lead to an error.
+      for (auto const &succ : boost::make_iterator_range(bb.next_blocks())) {
+        if (m_fail_without_exit.count(succ) > 0) {
+          precond.set_to_top();
+          break;
+        }
+      }
+    }
 
     CRAB_LOG("backward-fixpoint",
              crab::outs() << "Post at "
@@ -124,7 +189,9 @@ public:
       const fixpoint_parameters &fixpo_params)
     : fixpoint_iterator_t(crab::cfg::cfg_rev<CFG>(cfg), absval_fac, 
 			  fixpo_params),
-      m_cfg(cfg), m_absval_fac(absval_fac), m_good_states(false) {}
+      m_cfg(cfg), m_absval_fac(absval_fac), m_good_states(false) {
+    compute_fail_without_exit();
+  }
 
   // This constructor computes necessary preconditions from
   // safe/good (error) states if good_states is true (false).
@@ -133,7 +200,9 @@ public:
       const fixpoint_parameters &fixpo_params)
     : fixpoint_iterator_t(crab::cfg::cfg_rev<CFG>(cfg), absval_fac, 
 			  fixpo_params),
-      m_cfg(cfg), m_absval_fac(absval_fac), m_good_states(good_states) {}
+      m_cfg(cfg), m_absval_fac(absval_fac), m_good_states(good_states) {
+    compute_fail_without_exit();
+  }
   
   
   // postcond: final states that we want to propagate backwards  
